@@ -39,15 +39,18 @@ func buildPatchExpiredSelectionPredicate(sw swamp.Swamp, filters *hydrapb.Filter
 		}, nil
 	}
 
+	// The candidate set is computed before the engine takes the beacon
+	// mu, so it is only a fast-reject hint; a candidate may have been
+	// rewritten by the time it is claimed. The caller's full filter
+	// still decides the claim under the lock.
 	candidates := collectBucketCandidates(sw, plan.Hints)
 	set := candidateKeySet(candidates)
-	residual := plan.Residual
 
 	return func(t treasure.Treasure) bool {
 		if _, in := set[t.GetKey()]; !in {
 			return false
 		}
-		return evaluateNativeFilterGroup(t, residual)
+		return evaluateNativeFilterGroup(t, filters)
 	}, nil
 }
 
